@@ -120,7 +120,11 @@ def flatCmdWords (ctx : CmdCtx) : List Word → Nat → String → Bool → List
   | [], _, _, _ => []
   | wd :: ws, pos, cwd, remote =>
     (match wd with
-     | .mk _ ps => flatCmdParts ctx wd pos ps cwd remote)
+     | .mk v ps =>
+       (match assignSubscript v with
+        | some t => [.text false (some t) cwd remote]
+        | none => [])
+       ++ flatCmdParts ctx wd pos ps cwd remote)
     ++ flatCmdWords ctx ws (pos + 1) cwd remote
 
 def flatCmdParts (ctx : CmdCtx) (wd : Word) (pos : Nat) : List Part → String → Bool → List Atom
